@@ -213,6 +213,12 @@ void * vf_buffer(size_t bytes) { return std::malloc(bytes < (1u << 20) ? bytes +
 size_t vf_ptrdiff(const void * a, const void * base) { return (const char *)a - (const char *)base; }
 bool vf_same_object(const void *, const void *) { return true; }
 size_t vf_heap_live() { return (size_t)g_live; }
+static long g_cuda_live = 0;
+size_t vf_cuda_live() { return (size_t)g_cuda_live; }
+int vf_cudaMalloc(void ** p, size_t n) { *p = std::malloc(n ? n : 1); g_cuda_live++; return 0; }
+int cudaFree(void * p) { if (p) { g_cuda_live--; std::free(p); } return 0; }
+int cudaMemcpy(void * d, const void * s, size_t n, int) { std::memcpy(d, s, n); return 0; }
+const char * cudaGetErrorString(int) { return "cuda shim"; }
 
 void vf_probe_note(uint64_t n, uint64_t c0, uint64_t c1, uint64_t c2, uint64_t c3, uint64_t c4) { rt_scope _r; g_probe.push_back({n, c0, c1, c2, c3, c4}); }
 uint64_t vf_probe_calls() { return g_probe.size(); }
